@@ -722,7 +722,7 @@ def j8_heapindex(prog, rep, units=HEAPINDEX_UNITS):
             for e in f.all_elems():
                 if e.is_assign and e.op == "=" and norm(e.kid(0))[0] == "v" and e.kid(1) is not None:
                     r = e.kid(1).strip()
-                    if r is not None and r.cls == "CallExpr" and r.callee == "malloc":
+                    if r is not None and r.cls == "CallExpr" and r.callee in ("malloc", "calloc"):
                         ty = u.types.get(e.kid(0).ty) or {}
                         esz = (u.types.get(ty.get("pointee", "")) or {}).get("size")
                         if esz:
@@ -734,7 +734,11 @@ def j8_heapindex(prog, rep, units=HEAPINDEX_UNITS):
             def post_malloc(A, call, st, cs, arrs=arrs, f=f):
                 for p, (c, esz) in arrs.items():
                     if c is call:
-                        a = A.lin(call.arg(0), st)
+                        if call.callee == "calloc":
+                            cnt, each = A.lin(call.arg(0), st), A.lin(call.arg(1), st)
+                            a = cnt.scale(each.k) if (cnt is not None and each is not None and each.is_const()) else None
+                        else:
+                            a = A.lin(call.arg(0), st)
                         if a is not None:
                             return list(cs) + cons("==", Lin.var(("$cap", f.name, call.pos)).scale(esz), a)
                 return list(cs)
@@ -759,7 +763,7 @@ def j8_heapindex(prog, rep, units=HEAPINDEX_UNITS):
                     unsigned = {T} | set(idx)
                     break
             try:
-                A = poly.Analysis(f, assume=assume, post={"malloc": post_malloc}, unsigned_terms=unsigned, quiet={"sock_addr_dup", "sock_addr_freelist", "free"})
+                A = poly.Analysis(f, assume=assume, post={"malloc": post_malloc, "calloc": post_malloc}, unsigned_terms=unsigned, quiet={"sock_addr_dup", "sock_addr_freelist", "free"})
                 A.ghost = ghost
                 A.run()
             except poly.Budget if hasattr(poly, "Budget") else Exception as ex:
